@@ -53,7 +53,9 @@ LEVEL_TEXT = ("Seeded histories over all 22 families x 4 kinds x node sizes: "
               "implementation), pickle protocols 0-5 (into either "
               "implementation), copy and deepcopy and must keep equal "
               "ordered contents, stay sound and usable; final pickles "
-              "byte-identical for protocols 0-5. Sampling.")
+              "byte-identical for protocols 0-5; user subclasses (a tree "
+              "class naming its own leaf class) through every route, every "
+              "leaf of the reconstruction must be of that class. Sampling.")
 
 ROUTES = ["state-same", "state-other", "pickle", "pickle-other", "copy",
           "deepcopy", "restore", "restore"]
